@@ -22,11 +22,13 @@ def gen_case(rng, tier, want_acts=True, allow_defer=True, long_run=False, hosts_
   return spec, start, ops, cfg
 
 
-def run_qcase(ctx, n, props, **kw):
+def run_qcase(ctx, n, props, with_queries=False, **kw):
   rng = ctx.rng('case', n)
   spec, start, ops, cfg = gen_case(rng, ctx.tier, **kw)
   try:
-    res = qrun.run(spec, start, ops, cfg, max_steps=len(ops) * 3 + 200)
+    res = qrun.run(spec, start, ops, cfg, max_steps=len(ops) * 3 + 200, query_rng=ctx.rng('queries', n) if with_queries else None)
+    if with_queries:
+      ctx.count('queries_between_steps', res.nqueries)
   except hosts.Inconclusive:
     ctx.count('inconclusive_runs')
     return None
